@@ -110,6 +110,7 @@ type RawPeer struct {
 	readErr error
 	done    chan struct{}
 	raw     []byte
+	rxBytes int64 // bytes received from the library so far (guarded by mu)
 	KeepRaw bool
 	// NoPong switches AutoPong off after Start (AutoPong itself must not be written once the reader runs).
 	NoPong atomic.Bool
@@ -147,6 +148,7 @@ func (rp *RawPeer) Start() {
 			n, err := rp.End.Read(buf)
 			if n > 0 {
 				rp.mu.Lock()
+				rp.rxBytes += int64(n)
 				rp.Conf.Write(buf[:n])
 				if rp.KeepRaw {
 					rp.raw = append(rp.raw, buf[:n]...)
@@ -227,20 +229,35 @@ func (rp *RawPeer) SendBytes(b []byte) error {
 
 // Wait blocks until pred (evaluated under the peer's lock) holds, the stream
 // ended, or the timeout passes.
+//
+// The timeout is a bound on SILENCE, not on slowness: when it expires while bytes from the library are still
+// arriving (a race build on an oversubscribed machine can take many seconds to deliver what has long been
+// written), the wait is extended by another timeout, up to eight times.
 func (rp *RawPeer) Wait(timeout time.Duration, pred func() bool) bool {
-	deadline := time.Now().Add(timeout)
-	t := time.AfterFunc(timeout, func() { rp.mu.Lock(); rp.cond.Broadcast(); rp.mu.Unlock() })
-	defer t.Stop()
 	rp.mu.Lock()
 	defer rp.mu.Unlock()
-	for {
-		if pred() {
-			return true
+	for ext := 0; ; ext++ {
+		deadline := time.Now().Add(timeout)
+		t := time.AfterFunc(timeout, func() { rp.mu.Lock(); rp.cond.Broadcast(); rp.mu.Unlock() })
+		rx0 := rp.rxBytes
+		for {
+			if pred() {
+				t.Stop()
+				return true
+			}
+			if rp.readErr != nil {
+				t.Stop()
+				return pred()
+			}
+			if !time.Now().Before(deadline) {
+				break
+			}
+			rp.cond.Wait()
 		}
-		if rp.readErr != nil || !time.Now().Before(deadline) {
+		t.Stop()
+		if rp.rxBytes == rx0 || ext >= 8 {
 			return pred()
 		}
-		rp.cond.Wait()
 	}
 }
 
